@@ -266,7 +266,13 @@ class CallMixin:
         if a.kwarg is not None:
             names = set(params_rest) | {p.arg for p in a.kwonlyargs}
             extra = {k: v for k, v in kw.items() if k not in names and k != "**"}
-            scope.vars[a.kwarg.arg] = mk("dict", tuple(const(k) for k in extra), tuple(extra.values()))
+            if "**" in kw and not extra:
+                scope.vars[a.kwarg.arg] = kw["**"]
+            elif "**" in kw:
+                scope.vars[a.kwarg.arg] = mk("dict", tuple(const(k) for k in extra) + (mk("star", kw["**"]),),
+                                             tuple(extra.values()) + (kw["**"],))
+            else:
+                scope.vars[a.kwarg.arg] = mk("dict", tuple(const(k) for k in extra), tuple(extra.values()))
 
     def apply_func(self, f: FuncInfo, self_term: Optional[T], cls: Optional[ClassInfo], args: List[T],
                    kw: Dict[str, T], fr: Optional[Frame], node, closure: Optional[Scope] = None,
@@ -568,6 +574,9 @@ class CallMixin:
         return self._tree_map(args, kw, fr, node)
 
     def x_jax_tree_map(self, args, kw, fr, node):
+        return self._tree_map(args, kw, fr, node)
+
+    def x_tree_map_structure(self, args, kw, fr, node):
         return self._tree_map(args, kw, fr, node)
 
     def x_jax_tree_util_tree_leaves(self, args, kw, fr, node):
